@@ -49,3 +49,5 @@ def run(repo, res, tier):
     # comment delimiters and white space inside quotes / units are text, not layout
     from .. import lexsim as _ls9
     _ls9.rule_preserve_kind(repo, res)
+    # the grammar's own white space / delimiter characters are characters its lexer accepts
+    common.rule_tables_allowed(repo, res)
